@@ -350,6 +350,7 @@ impl Spec {
                                 (None, _) => Some(false),
                                 (Some(_), Auth::None) => Some(false),
                                 (Some(rk), Auth::Sha1(k)) | (Some(rk), Auth::Sha256(k)) | (Some(rk), Auth::Both(k)) | (Some(rk), Auth::Sha256Trunc(k)) => Some(rk == *k),
+                                (Some(rk), Auth::Sha256Len(k, n)) => Some(rk == *k && matches!(n, 16 | 20 | 24 | 28 | 32)),
                                 (Some(_), Auth::Sha1Flipped(_)) | (Some(_), Auth::Sha256Flipped(_)) | (Some(_), Auth::Sha1WireLenFp(_)) | (Some(_), Auth::Sha256WireLenFp(_)) => Some(false),
                                 // SHA-256 has precedence when both are present (RFC 8489 9.1.3 / 9.2.4)
                                 (Some(_), Auth::MixedSha1Good(_)) => Some(false),
